@@ -108,6 +108,20 @@ def _r1(ctx, repo):
     # canonical order of the collected arguments
     init = repo.fn("types:KGLambda.__init__")
     ctx.instance("C09-R1", init.fq)
+    # where the parameter names come from: the caller's explicit list, else the callable's SIGNATURE (inspect.signature follows
+    # __wrapped__ / __signature__, so a functools.wraps-decorated callable keeps its x/y/z); never the raw code object
+    from ..common import value_alternatives
+    memb = [n for n in walk_local(init.node) if isinstance(n, ast.Compare) and len(n.ops) == 1 and isinstance(n.ops[0], ast.In) and isinstance(n.comparators[0], ast.Name)]
+    pnames = sorted({n.comparators[0].id for n in memb if n.comparators[0].id not in init.params()})
+    ctx.floor("C09-R1", "locals of KGLambda.__init__ that hold the callable's parameter names", len(pnames), 1)
+    from ..model import enclosing_stmt as _est
+    for pn in pnames:
+        use = next(n for n in memb if n.comparators[0].id == pn)
+        alts = value_alternatives(ast.Name(id=pn, ctx=ast.Load()), init.node, _est(use))
+        bad = [v for v, _c in alts if not ((isinstance(v, ast.Name) and v.id in init.params()) or (isinstance(v, ast.Call) and callee_name(v) == "safe_inspect"))]
+        ctx.ob("C09-R1", init.fq, f"`{pn}` is the explicit argument list or safe_inspect(fn) (the callable's signature)", not bad, node=use, construct=f"parameter names taken from {src(bad[0])[:50] if bad else ''}",
+               msg=f"the parameter names can come from `{src(bad[0])[:60] if bad else ''}` instead of the callable's signature: a decorated callable (functools.wraps around (*args, **kwargs)) is then seen "
+                   "without x/y/z, registered as a nilad and called without its arguments")
     asg = [n for n in walk_local(init.node) if isinstance(n, ast.Assign) and any(dotted(t) == "self.args" for t in n.targets)]
     if len(asg) != 1:
         ctx.ob("C09-R1", init.fq, "self.args has a single definition", False, node=init.node, construct="self.args definition")
@@ -543,6 +557,7 @@ MUTATION_SCOPE = ['types:KGLambda.__init__',
                   'interpreter:KlongInterpreter.__delitem__']
 
 SEEDS = [
+    Seed("param-names-from-code-object", "fault", "types", "        params = args or safe_inspect(fn)", "        params = args or (fn.__code__.co_varnames[:fn.__code__.co_argcount] if hasattr(fn, '__code__') else safe_inspect(fn))", rule="C09-R1"),
     Seed("found-symbol-first", "fault", "types", "        self._sym = sym if sym is not None else self._find_symbol(fn)", "        self._sym = self._find_symbol(fn) or sym", rule="C09-R3"),
     Seed("refactor-sym-or-search", "refactor", "types", "        self._sym = sym if sym is not None else self._find_symbol(fn)", "        self._sym = sym or self._find_symbol(fn)"),
     Seed("inspect-memo-by-code", "fault", "types", "def safe_inspect(fn, follow_wrapped=True):\n    try:\n        return inspect.signature(fn, follow_wrapped=follow_wrapped).parameters",
